@@ -153,6 +153,8 @@ class World:
             self.do_eval(i, op)
         elif k == "illeval":
             self.do_illeval(i, op)
+        elif k == "exteval":
+            self.do_exteval(i, op)
         elif k == "touch":
             self.ensure_proc(op.get("proc", 0))
         elif k == "load":
@@ -164,6 +166,23 @@ class World:
         sid = self.store_id(info)
         m = self.model(sid)
         return Cones(self.versions[info["ver"]], load_fp=lambda p: m["path_fp"].get(p, "absent"), entry=entry)
+
+    def _path_fps(self, info, entry):
+        c = self.cones(info, entry)
+        return {p: c.fp_node(prod) for p, prod in c.producers().items()}
+
+    def do_exteval(self, i, op):
+        """Direct call of a data function defined in a non-accepted module (must be refused)."""
+        info = self.ensure_proc(op.get("proc", 0))
+        prog = self.versions[info["ver"]]
+        mods = prog.get("extmods", ["extlib"])
+        em = mods[op.get("m", 0) % len(mods)]
+        before = self.store_snapshot(info)
+        out = info["proc"].call({"cmd": "eval", "entry": em + ":ext_data", "style": "call", "options": {}})
+        after = self.store_snapshot(info)
+        self.obs.append({"i": i, "op": "exteval", "module": em, "res": out["res"], "log": out["log"],
+                         "snap_before": before, "snap_after": after})
+        self.log.append([i, "exteval", em, out["res"][:3], out["log"]])
 
     def do_illeval(self, i, op):
         """Evaluation of an ill-formed entry point: no reference run (plain execution would not terminate)."""
@@ -244,7 +263,8 @@ class World:
                "inst": info["inst"], "mut": len(info["mutations"]), "snap_before": snap_before, "snap_after": snap_after,
                "nstore_calls": sum(1 for c in out["calls"] if c[0] == "store_blob"),
                "nsync_calls": sum(1 for c in out["calls"] if c[0] == "sync_paths"),
-               "kept_fns": sorted(self.cones(info, fn).kept_functions())}
+               "kept_fns": sorted(self.cones(info, fn).kept_functions()),
+               "fps": self._path_fps(info, fn)}
         self.obs.append(rec)
         self.log.append([i, "eval", fn, style, info["ver"], sid, out["res"][:2], out["log"], rec["sigs"]])
         if op.get("fail") or not full:
